@@ -40,14 +40,6 @@ Definition cell_extent (rtl : bool) (pos ws : list Q) (s : Q) (gx span : nat) (b
 (* ---- judge for rendered tables ----
    a case: direction, content box x, table width, spacing, column widths (logical order), implementation's
    column positions (logical order), rows (x, width) list, cells (gx, span, bp, colspan', x, content width). *)
-Definition close (tol a b : Q) : bool := Qle_bool (a - b) tol && Qle_bool (b - a) tol.
-Fixpoint qlist_close (tol : Q) (a b : list Q) : bool :=
-  match a, b with
-  | [], [] => true
-  | x :: a', y :: b' => close tol x y && qlist_close tol a' b'
-  | _, _ => false
-  end.
-
 Definition rcell := (nat * nat * Q * nat * Q * Q)%type.
 Definition cell_ok (tol : Q) (rtl : bool) (pos ws : list Q) (s : Q) (c : rcell) : bool :=
   let '(gx, span, bp, k', x', w') := c in
